@@ -759,6 +759,25 @@ fn check_sem_case(ctx: &mut Ctx, w: &World, g: &Gen, q: &Q, text: &str) {
     }
 }
 
+/// tokens of a random item of a list: a well-formed operand, or (the kinds of
+/// `C16_print_parse_boosted`) a boost on an operand that ends with a closing bracket
+fn lean_item_tokens(rng: &mut Rng, depth: u32, out: &mut Vec<String>) {
+    if rng.chance(1, 6) {
+        for _ in 0..12 {
+            let mut tmp: Vec<String> = vec![];
+            lean_opd_tokens(rng, depth, &mut tmp);
+            if matches!(tmp[0].as_str(), "r" | "fr" | "s" | "fs" | "g") {
+                out.push("b".into());
+                out.push(rng.pick(&["2", "1", "0", "10", "007", "3"]).to_string());
+                out.push(rng.pick(&["-", "-", "5", "0", "25", "50"]).to_string());
+                out.extend(tmp);
+                return;
+            }
+        }
+    }
+    lean_opd_tokens(rng, depth, out);
+}
+
 /// tokens of a random well-formed operand (`WFOpd`) for the Lean printer
 fn lean_opd_tokens(rng: &mut Rng, depth: u32, out: &mut Vec<String>) {
     const VOC: &[&str] = &["a", "b", "abc", "x1", "ANDROID", "ORx", "NOTE", "INDIA", "IN2", "AN", "O", "NO", "42", "Zed", "andor"];
@@ -876,13 +895,13 @@ fn lean_opd_tokens(rng: &mut Rng, depth: u32, out: &mut Vec<String>) {
     out.push(rng.pick(&["-", "-", "m", "x", "s"]).to_string());
     out.push(rng.below(3).to_string());
     out.push(n.to_string());
-    lean_opd_tokens(rng, depth - 1, out);
+    lean_item_tokens(rng, depth - 1, out);
     for _ in 0..n {
         out.push(rng.pick(&["-", "a", "o"]).to_string());
         out.push(rng.pick(&["-", "-", "m", "x", "s"]).to_string());
         out.push(rng.below(3).to_string());
         out.push(rng.below(3).to_string());
-        lean_opd_tokens(rng, depth - 1, out);
+        lean_item_tokens(rng, depth - 1, out);
     }
 }
 
@@ -891,13 +910,13 @@ fn check_lean_printed_nested(ctx: &mut Ctx, w: &World) {
     let mut rng = ctx.rng.fork();
     let n = rng.usize_below(4);
     let mut toks: Vec<String> = vec![rng.below(3).to_string(), rng.pick(&["-", "-", "m", "x", "s"]).to_string(), rng.below(3).to_string(), n.to_string()];
-    lean_opd_tokens(&mut rng, 3, &mut toks);
+    lean_item_tokens(&mut rng, 3, &mut toks);
     for _ in 0..n {
         toks.push(rng.pick(&["-", "a", "o"]).to_string());
         toks.push(rng.pick(&["-", "-", "m", "x", "s"]).to_string());
         toks.push(rng.below(3).to_string());
         toks.push(rng.below(3).to_string());
-        lean_opd_tokens(&mut rng, 3, &mut toks);
+        lean_item_tokens(&mut rng, 3, &mut toks);
     }
     let req = format!("C16 printt {}", toks.join(","));
     let resp = ctx.model.ask(&req);
